@@ -10,8 +10,13 @@ def jobs(tier, seed):
     return _c01.make_jobs(tier, seed, ("c12",))
 
 
-HARNESSES = _c01.HARNESSES
+from props import alias_common as _alias
+
+HARNESSES = dict(_c01.HARNESSES)
+HARNESSES["alias"] = _alias.alias_harness("C12")
 
 META = dict(_c01.META)
 META["functions"] = _c01.META["functions"] + ["LatticeMaze.get_connected_component", "LatticeMaze.generate_random_path", "LatticeMaze.find_shortest_path"]
 META["assumptions"] = _c01.META["assumptions"] + ["'requested number of accessible cells' is int(accessible_cells * rows*cols) for float arguments, as documented"]
+
+META["degenerate"] = dict(META.get("degenerate", {}), alias=_alias.ALIAS_META)
